@@ -53,6 +53,17 @@ def gen_stmts(pg, depth=0, n=None, allow_return=True):
             if k >= 0.35:
                 node["finally"] = gen_stmts(pg, depth + 1, n=rng.choice([1, 2]), allow_return=False)
             out.append(node)
+        elif r < 0.89 and depth < 2 and pg.dets and not getattr(pg, "no_reuse", False):
+            # a retry loop that yields the *same* Msg object again on every attempt
+            g = pg.group()
+            trig = msg(S, "trigger", rng.choice(pg.dets), group=g)
+            trig["reuse"] = True
+            wait = msg(S, "wait", None, group=g)
+            wait["reuse"] = rng.random() < 0.5
+            attempt = {"op": "try", "site": S(), "body": [trig, wait], "handlers": [{"exc": rng.choice(["Exception", "DeviceFault", "FailedStatus"]), "body": [msg(S, "null")], "reraise": False}]}
+            if rng.random() < 0.4:
+                attempt["finally"] = [msg(S, "null")]
+            out.append({"op": "repeat", "n": rng.choice([2, 3]), "body": [attempt]})
         elif r < 0.92 and depth < 2:
             out.append({"op": "seq", "body": gen_stmts(pg, depth + 1, allow_return=allow_return)})
         elif r < 0.96:
